@@ -210,15 +210,20 @@ def gen_recorder(prop, arch32=True, cold=False, concuni=False, batch=False, conc
 
 
 def plain_replay(prop, path, binary):
-    d = vlib.scratch("verif-rp-")
-    out = os.path.join(d, "replay.ndjson")
-    vlib.run_harness(binary, ["replay", "-arg", path, "-out", out])
-    lines = vlib.read_trace(out)
-    v = vlib.validate(lines, [prop], shards=1)
-    if v.infra:
-        raise Infra("replay trace unusable: %s" % v.infra[:3])
-    mine = [b for b in v.bad if b[1] == prop]
-    return (len(mine) == 0, "re-executed %d events, %d failing" % (len(lines), len(mine)))
+    # what a call does may depend on when the collector runs: a unit that does not fail again at once is re-executed
+    # twice more before the failure counts as not reproduced
+    for attempt in range(3):
+        d = vlib.scratch("verif-rp-")
+        out = os.path.join(d, "replay.ndjson")
+        vlib.run_harness(binary, ["replay", "-arg", path, "-out", out])
+        lines = vlib.read_trace(out)
+        v = vlib.validate(lines, [prop], shards=1)
+        if v.infra:
+            raise Infra("replay trace unusable: %s" % v.infra[:3])
+        mine = [b for b in v.bad if b[1] == prop]
+        if mine:
+            break
+    return (len(mine) == 0, "re-executed %d events%s, %d failing" % (len(lines), " (%d times)" % (attempt + 1) if attempt else "", len(mine)))
 
 
 def cold_replay(prop):
@@ -696,6 +701,23 @@ def record_c06(binary, tier, seed):
     for (w, sc) in ((12, [{"k": 16, "err": ""}]), (24, [{"k": 9, "err": ""}, {"k": 23, "err": ""}])):
         steps.append({"op": "new", "n": w, "lang": seed % 10, "script": sc, "after": "data", "fill": 8, "delay_ms": 1200 if tier == "quick" else 3000})
         nrun += 1
+    steps.append({"op": "cut"})
+    # collections and finalizers run between the pieces of a delivery (a busy process): the bytes delivered first are
+    # still there when the call encodes
+    for w in (12, 15, 18, 21, 24):
+        need = w + w // 3
+        for a in (1, need // 2, need - 1):
+            steps.append({"op": "new", "n": w, "lang": (seed + a) % 10, "script": [{"k": a, "err": ""}, {"k": need - a, "err": ""}], "after": "data", "fill": 6, "gc": True})
+            nrun += 1
+    steps.append({"op": "cut"})
+    # a source with a defect of its own panics inside Read; the caller recovers (a request handler); the calls that
+    # follow, on a healthy source, work as ever
+    for w in (12, 24, 18):
+        steps.append({"op": "new", "n": w, "lang": seed % 10, "script": [{"k": 5, "err": ""}, {"k": 0, "err": "panic"}], "after": "data", "fill": 5})
+        steps.append({"op": "new", "n": w, "lang": seed % 10, "script": [{"k": w + w // 3, "err": ""}], "after": "data", "fill": 5})
+        steps.append({"op": "new", "n": 12, "lang": (seed + 1) % 10, "script": [{"k": 0, "err": "panic"}], "after": "data", "fill": 5})
+        steps.append({"op": "new", "n": 15, "lang": (seed + 1) % 10, "script": [{"k": 7, "err": ""}, {"k": 13, "err": ""}], "after": "data", "fill": 5})
+        nrun += 4
     steps.append({"op": "cut"})
     # the same protocol through sources of other dynamic types: an io.ByteReader, a *bufio.Reader (fresh per call,
     # so that read-ahead does not carry over); a library that type-switches on its source must not change behaviour
@@ -1418,7 +1440,7 @@ def build_tool():
     return out
 
 
-def run_tool(tool, binary, port, inputs, golden, label, d, faults=None):
+def run_tool(tool, binary, port, inputs, golden, label, d, faults=None, other_fs=False):
     """inputs: file -> bytes.  Returns Gen event lines.  faults: file -> number of requests for it that break off
     mid-body; the tool is then run again (as a maintainer would) until it reports success."""
     ind, outd = os.path.join(d, "in"), os.path.join(d, "out")
@@ -1437,12 +1459,23 @@ def run_tool(tool, binary, port, inputs, golden, label, d, faults=None):
     tenv = dict(os.environ, VERIF_WORDLIST_URL="http://127.0.0.1:%d" % port, HOME=home, XDG_CACHE_HOME=os.path.join(home, ".cache"),
                 XDG_CONFIG_HOME=os.path.join(home, ".config"), TMPDIR=os.path.join(home, "tmp"))
     os.makedirs(tenv["TMPDIR"], exist_ok=True)
+    other = None
+    if other_fs:
+        # the temporary directory on another file system than the tree being regenerated (tmpfs /tmp, a bind mount)
+        try:
+            if os.path.isdir("/dev/shm") and os.stat("/dev/shm").st_dev != os.stat(outd).st_dev:
+                other = vlib.tempfile.mkdtemp(prefix="verif-tmp-", dir="/dev/shm")
+                tenv["TMPDIR"] = other
+        except OSError:
+            other = None
     for attempt in range(2 + sum((faults or {}).values())):
         r = subprocess.run(["timeout", "120", tool], cwd=outd, env=tenv, capture_output=True, text=True)
         if r.returncode == 0 or not faults:
             break
     # (a tool that still fails is not special: what it left in the output directory is compared with its input below)
     _Srv.faults = {}
+    if other:
+        vlib.shutil.rmtree(other, ignore_errors=True)
     args, tr = os.path.join(d, "args.json"), os.path.join(d, "gen.ndjson")
     json.dump({"indir": ind, "outdir": outd, "golden": golden, "label": label + (" tool_exit=%d" % r.returncode)}, open(args, "w"))
     vlib.run_harness(binary, ["genparse", "-arg", args, "-out", tr], env_extra={"VERIF_REPO": vlib.REPO})
@@ -1482,7 +1515,7 @@ def record_c17(binary, tier, seed):
         nstruct = 12 if tier == "quick" else 200
         for k in range(nstruct):
             inputs = {f: concretise_lines(structs[(k * 10 + i) % len(structs)], rng, pools).encode() for i, f in enumerate(FILES)}
-            lines += run_tool(tool, binary, port, inputs, False, "structure", d)
+            lines += run_tool(tool, binary, port, inputs, False, "structure", d, other_fs=(k % 3 == 1))
             runs += 1
         # very long words (a line-oriented reader with a token limit would drop them and everything after)
         for n in ((65535, 65536, 70000) if tier == "quick" else (4095, 4096, 65535, 65536, 65537, 70000, 200000, 1 << 20)):
@@ -1500,7 +1533,7 @@ def record_c17(binary, tier, seed):
         nbig = 7 if tier == "quick" else 100
         for k in range(nbig):
             inputs = {f: random_list(rng, pools, rng.choice([0, 1, 2, 10, 100, 2048, 5000])).encode() for f in FILES}
-            lines += run_tool(tool, binary, port, inputs, False, "random", d)
+            lines += run_tool(tool, binary, port, inputs, False, "random", d, other_fs=(k % 3 == 1))
             runs += 1
             if k % 2 == 0:
                 # upstream changes without changing its size: the same lines in another order, one word replaced by
@@ -1539,6 +1572,7 @@ def replay_c17(path, binary):
         if len(other) == len(text) and other != text:
             run_tool(tool, binary, srv.server_address[1], {f: other for f in FILES}, False, "replay-same-size-run", d)
         lines = run_tool(tool, binary, srv.server_address[1], {f: text for f in FILES}, False, "replay", d)
+        lines += run_tool(tool, binary, srv.server_address[1], {f: text for f in FILES}, False, "replay-tmp-on-other-fs", d, other_fs=True)
         lines += run_tool(tool, binary, srv.server_address[1], {f: text for f in FILES}, False, "replay-broken-transfer", d, faults={f: 1 for f in FILES[::3]})
     finally:
         srv.shutdown()
